@@ -152,6 +152,12 @@ def run(ctx):
                           "free": {"nevents": nev, "broker_us": us, "close_at_us": 0, "seed": rng.randint(1, 1 << 30), "stall": True}})
         nfree += 1
 
+    # ... and a broker that takes seven seconds over the first batch only: nothing overtakes it, Close() waits for it
+    sid += 1
+    scenarios.append({"id": sid, "cfg": {"producers": ["p1", "p2"], "chancap": 10000}, "steps": [], "origin": "slow-first-batch",
+                      "free": {"nevents": 150, "broker_us": 0, "close_at_us": 0, "seed": rng.randint(1, 1 << 30), "first_ms": 7000}})
+    nfree += 1
+
     # 3. replay on the real code
     binp = ctx.build("eventwriter")
     scn_file = ctx.path("scenarios.ndjson")
